@@ -125,15 +125,15 @@ theorem wellformed_accepted (k : Kind) (c : Call) (h : ¬ Malformed k c)
     · have : k = .multiclassCarver := by simpa using hk
       have := h11 this
       simp_all
-  · cases hk : (k != Kind.qualitative)
-    · first | rfl | simp
-    · have : k ≠ .qualitative := by simpa using hk
-      have := h12 this
-      simp [this]
   · cases hk : (k != Kind.quantitative)
     · first | rfl | simp
     · have : k ≠ .quantitative := by simpa using hk
       have := h13 this
+      simp [this]
+  · cases hk : (k != Kind.qualitative)
+    · first | rfl | simp
+    · have : k ≠ .qualitative := by simpa using hk
+      have := h12 this
       simp [this]
 
 /-- **The refit guard runs first**: on a fitted object the call is refused before any other guard
